@@ -21,7 +21,8 @@
 From PV Require Import Lib.Bytes Model.Redundant Model.RedundantPaths Model.RedundantCond Spec.MakeEval Spec.VerdictSound
   Spec.PathDenote Spec.SpellingIndep
   Proofs.RedundantRefuted Proofs.RedundantSound Proofs.RedundantReads Proofs.RedundantTotal
-  Proofs.RedundantPaths Proofs.RedundantCond Proofs.RedundantCondSim.
+  Proofs.RedundantPaths Proofs.RedundantCond Proofs.RedundantCondSim
+  Spec.VerdictSound2 Proofs.RedundantSound2 Proofs.RedundantSound3 Proofs.RedundantSound4.
 
 Definition C17_verdict_sound_full : Prop :=
   forall (p : program) (vs : list verdict) (vd : verdict),
@@ -242,3 +243,112 @@ Theorem C17_verdict_sound_cond_partial :
     guard (map snd p) vd = true -> deletable (map snd p) (vd_flagged vd).
 Proof. exact verdict_sound_cond_total. Qed.
 Print Assumptions C17_verdict_sound_cond_partial.
+
+(* ----- round 5: ':=' / '!=' lines with a '$' between the two lines ----- *)
+
+(* The guard of C17_verdict_sound_partial with its second conjunct weakened.  An
+   EARLIER line lo is flagged because of the later line hi (variable x): every
+   ':=' / '!=' whose text contains a '$' among the lines lo+1 .. hi (hi included)
+   does not reach x, where "reach" is read off the program text -- z refers to w
+   when some assignment to z in the lines BEFORE the line in question has ${w} in
+   its text; [reaches pre ws x] closes the variables ws of the line's text under
+   this relation and looks for x (Spec/VerdictSound2.v, executable).  The first
+   conjunct (later line flagged) is unchanged. *)
+Theorem C17_verdict_sound_partial2 :
+  forall (p : program) (vs : list verdict) (vd : verdict),
+    wf_program p = true -> check p = Ok vs -> In vd vs ->
+    (if Nat.ltb (vd_flagged vd) (vd_because vd) then
+       indep_lines (line_var p (vd_flagged vd)) (firstn (S (vd_flagged vd)) p)
+                   (firstn (vd_because vd - vd_flagged vd) (skipn (S (vd_flagged vd)) p))
+     else
+       match line_op p (vd_flagged vd) with
+       | Some OpDefault => true
+       | _ => negb (after_eval_ref (writes_of (line_var p (vd_flagged vd)) 0 (firstn (vd_flagged vd) p)))
+       end) = true ->
+    deletable p (vd_flagged vd).
+Proof. exact verdict_sound_partial2. Qed.
+Print Assumptions C17_verdict_sound_partial2.
+
+(* VA= a / VC= c / VB:= ${VC} / VA= b: the verdict "line 1 is overwritten in line
+   4" is outside the old guard and inside the new one. *)
+Theorem C17_partial2_covers_more :
+  wf_program prog_between = true /\
+  check prog_between = Ok [mkVerdict 0 3 KOverwritten] /\
+  guard prog_between (mkVerdict 0 3 KOverwritten) = false /\
+  guard2 prog_between (mkVerdict 0 3 KOverwritten) = true.
+Proof. exact prog_between_facts. Qed.
+Print Assumptions C17_partial2_covers_more.
+
+(* The read marks of the model against the program text: Var.Refs() of z contains
+   every variable named in a text assigned to z so far, and while the last action
+   on x is not a read the lines after the last assignment to x do not reach x.
+   Hence nothing has to be asked of the lines BETWEEN the two lines: only the later
+   line itself, if it is a ':=' / '!=' with a '$', must not reach x. *)
+Theorem C17_verdict_sound_partial3 :
+  forall (p : program) (vs : list verdict) (vd : verdict),
+    wf_program p = true -> check p = Ok vs -> In vd vs ->
+    (if Nat.ltb (vd_flagged vd) (vd_because vd) then
+       match nth_error p (vd_because vd) with
+       | Some l => indep_line (firstn (vd_because vd) p) (line_var p (vd_flagged vd)) l
+       | None => true
+       end
+     else
+       match line_op p (vd_flagged vd) with
+       | Some OpDefault => true
+       | _ => negb (after_eval_ref (writes_of (line_var p (vd_flagged vd)) 0 (firstn (vd_flagged vd) p)))
+       end) = true ->
+    deletable p (vd_flagged vd).
+Proof. exact verdict_sound_partial3. Qed.
+Print Assumptions C17_verdict_sound_partial3.
+
+(* ... and not of the later line either: the only later line with a '$' that
+   makes an earlier line "redundant" is a '!=' on a constant variable whose command
+   does not name the variable (repair 04); a constant variable whose last action is
+   not a read has never been read, so no text names it and the command cannot reach
+   it.  What is left of the guard is the condition for a LATER flagged line, i.e.
+   the unrepaired finding (its need: C17_guard_needs_eval_condition). *)
+Theorem C17_verdict_sound_partial4 :
+  forall (p : program) (vs : list verdict) (vd : verdict),
+    wf_program p = true -> check p = Ok vs -> In vd vs ->
+    (if Nat.ltb (vd_flagged vd) (vd_because vd) then true
+     else
+       match line_op p (vd_flagged vd) with
+       | Some OpDefault => true
+       | _ => negb (after_eval_ref (writes_of (line_var p (vd_flagged vd)) 0 (firstn (vd_flagged vd) p)))
+       end) = true ->
+    deletable p (vd_flagged vd).
+Proof. exact verdict_sound_partial4. Qed.
+Print Assumptions C17_verdict_sound_partial4.
+
+(* In plain terms: every verdict that flags the EARLIER of its two lines
+   ("overwritten in line n", "redundant because of line n" with n further down)
+   is sound, for all programs. *)
+Theorem C17_earlier_line_sound :
+  forall (p : program) (vs : list verdict) (vd : verdict),
+    wf_program p = true -> check p = Ok vs -> In vd vs ->
+    (vd_flagged vd < vd_because vd)%nat -> deletable p (vd_flagged vd).
+Proof. exact earlier_line_sound. Qed.
+Print Assumptions C17_earlier_line_sound.
+
+(* The same for arbitrarily spelled files, for the analysis on denotations, and
+   with conditional sections. *)
+Theorem C17_verdict_sound_spelled_partial4 :
+  forall (p : pprogram) (vs : list verdict) (vd : verdict),
+    wf_program (forget p) = true -> check_spelled p = Ok vs -> In vd vs ->
+    guard4 (forget p) vd = true -> deletable (forget p) (vd_flagged vd).
+Proof. exact verdict_sound_spelled4. Qed.
+Print Assumptions C17_verdict_sound_spelled_partial4.
+
+Theorem C17_verdict_sound_denoted_partial4 :
+  forall (cwd : str) (p : pprogram) (vs : list verdict) (vd : verdict),
+    wf_program (forget p) = true -> check_denoted cwd p = Ok vs -> In vd vs ->
+    guard4 (intern_by (same_denotation cwd) p) vd = true -> deletable (forget p) (vd_flagged vd).
+Proof. exact verdict_sound_denoted4. Qed.
+Print Assumptions C17_verdict_sound_denoted_partial4.
+
+Theorem C17_verdict_sound_cond_partial4 :
+  forall (p : cprogram) (vsc : list verdict) (vd : verdict),
+    wf_program (map snd p) = true -> check_c p = Ok vsc -> In vd vsc ->
+    guard4 (map snd p) vd = true -> deletable (map snd p) (vd_flagged vd).
+Proof. exact verdict_sound_cond4. Qed.
+Print Assumptions C17_verdict_sound_cond_partial4.
